@@ -271,9 +271,12 @@ def main():
                                           for p in progs]}))
     obs = observables(queries)
     keys = list(obs)
+    vmod = spec.get('variation_mod') or [1, 0]
     for i, s in enumerate(spec['smiles']):
         rec = {'smiles': s}
         hist = ([], [])
+        # history / copy variations are independent of the hash seed: each worker runs them for its share of the molecules
+        variations = bool(spec.get('variations')) and i % vmod[0] == vmod[1]
         try:
             base = evaluate(smiles(s), obs)
             rec['out'] = base
@@ -288,7 +291,7 @@ def main():
                 rec['out']['perturbations_applied'] = applied2
                 for k in keys:
                     rec['out']['perturbed:' + k] = final[k]
-                if spec.get('variations'):
+                if variations:
                     rec['cached_differs'], rec['copy_differs'] = [], []
                     a, applied = perturbed_history(s, smiles, obs, keys, rec)
                     if applied != applied2:
@@ -296,7 +299,7 @@ def main():
                     elif a is not None:
                         rec['cached_differs'] += [f'{k}:after-perturbations-read-between-vs-never-read' for k in keys if a[k] != final[k]]
                     hist = (rec['cached_differs'], rec['copy_differs'])
-            if spec.get('variations'):
+            if variations:
                 rec['cached_differs'], rec['copy_differs'] = list(hist[0]), list(hist[1])
                 rng = random.Random(spec.get('rng', 0) ^ hash(len(s)))
                 for k in keys:  # k first on a fresh object
